@@ -346,6 +346,17 @@ def gen(rng, tier):
         yield c
 
 
+def general_sizes(f, r2bound_log, bound):
+    """sizes n for which GeneralEvaluationDomain::new(n) has exactly n elements: powers of two within the
+    two-adicity (Radix2 variant), and mixed sizes whose next power of two exceeds 2^TWO_ADICITY (MixedRadix variant)"""
+    out = set(f.radix2_sizes(r2bound_log))
+    if f.q:
+        for n in f.mixed_sizes(bound):
+            if (1 << (n - 1).bit_length()) > (1 << f.s):
+                out.add(n)
+    return sorted(out)
+
+
 def divisors_in(sizes, n):
     return [m for m in sizes if n % m == 0]
 
@@ -354,6 +365,8 @@ def outside_point(rng, f, n, h):
     """a field element outside the coset h*<w_n> (input selection only)"""
     p = f.p
     hi = pow(h, -1, p)
+    if n == p - 1:
+        return 0   # the domain is the whole multiplicative group
     while True:
         t = rng.randrange(1, p)
         if pow(t * hi % p, n, p) != 1:
@@ -372,7 +385,7 @@ def gen_ext3(rng, tier):
         for kind in (0, 1, 2):
             if kind == 1 and not f.q:
                 continue
-            sizes = r2 if (kind == 0 or not f.q) else f.mixed_sizes(1 << 62)
+            sizes = r2 if (kind == 0 or not f.q) else (f.mixed_sizes(1 << 62) if kind == 1 else general_sizes(f, maxlog_toy, 1 << 62))
             for n in sizes:
                 for m in divisors_in(sizes, n):
                     # branches: index < |S| -> index * period; else i + i / (period - 1) + 1.  period = |G| / |S|
@@ -389,7 +402,7 @@ def gen_ext3(rng, tier):
             if kind == 1 and not f.q:
                 continue
             r2 = f.radix2_sizes(12)
-            sizes = r2 if (kind == 0 or not f.q) else f.mixed_sizes(1 << 12)
+            sizes = r2 if (kind == 0 or not f.q) else (f.mixed_sizes(1 << 12) if kind == 1 else general_sizes(f, 12, 1 << 12))
             for n in sizes:
                 for m in divisors_in(sizes, n):
                     if n <= 48:
@@ -410,15 +423,15 @@ def gen_ext3(rng, tier):
             # DEFECT-2 (NOTES.md): for a domain with offset^|G| != 1 filter_polynomial is not normalised
             # (its value on the subdomain is offset^|G|, evaluate_filter_polynomial says 1): not generated
             for offG, gc in (([], 'G_subgroup'), ([pow(wG, rng.randrange(1, n), p)] if n > 1 else [1], 'G_rotated')):
-                js = {0, 1 % per, rng.randrange(per), rng.randrange(n)}
+                js = {0, 1 % per, rng.randrange(n)} if not offG else {rng.randrange(n)}
                 for j in sorted(js):
                     hS = pow(wG, j, p)
                     c = pow(hS, m, p)
                     sc = 'S_subgroup' if hS == 1 else ('S_coset_c=1' if c == 1 else 'S_coset')
-                    taus = [(hS * pow(wS, rng.randrange(m), p) % p, 'tau_in_S'), (hS, 'tau=S0'),
-                            (pow(wG, rng.randrange(n), p), 'tau_in_G'), (1, 'tau=1')]
+                    taus = [(hS * pow(wS, rng.randrange(m), p) % p, 'tau_in_S'), (pow(wG, rng.randrange(n), p), 'tau_in_G'),
+                            rng.choice([(hS, 'tau=S0'), (1, 'tau=1')])]
                     if c == 1:
-                        taus += [(0, 'tau=0'), (outside_point(rng, f, n, 1), 'tau_outside_G'), (rng.randrange(p), 'tau_rand')]
+                        taus += [rng.choice([(0, 'tau=0'), (outside_point(rng, f, n, 1), 'tau_outside_G')]), (rng.randrange(p), 'tau_rand')]
                     # else: DEFECT-1 (NOTES.md): evaluate_filter_polynomial omits the factor offset_S^|S| when the
                     # subdomain is a proper coset (offset_S^|S| != 1) and tau is outside G: those points not generated
                     for tau, tc in taus:
@@ -434,8 +447,7 @@ def gen_ext3(rng, tier):
             r2 = f.radix2_sizes(8)
             sizes = [x for x in (r2 if (kind == 0 or not f.q) else f.mixed_sizes(top)) if x <= top]
             if kind == 2 and f.q:
-                sizes = [x for x in sizes if x & (x - 1) or x > (1 << f.s)] + [1, 2, 4]
-                sizes = sorted(set(x for x in sizes if x <= top and (x & (x - 1) or x <= (1 << f.s))))
+                sizes = [x for x in general_sizes(f, 8, 256) if x <= max(top, 256) and (x <= top or x & (x - 1))]
             for n in sizes:
                 for m in divisors_in(sizes, n):
                     for c in filter_cases(f, kind, sizes, n, m, 2 if (thorough and cid in TOY) else 1):
